@@ -54,7 +54,11 @@ HostsMore == {
     IpH(Doc6(127, 255, 2)),
     IpH(Map6(127, 0, 0, 1)) }
 
-Hosts == HostsCore \cup HostsMore
+HostsQuick == HostsCore \cup { NameH(<<"deep", "www", "example", "com">>, "l"),
+                               NameH(<<"xn--bcher-kva", "example", "com">>, "l"),
+                               NameH(<<"xn--bcher-kva", "example", "com">>, "m"),
+                               IpH(Map6(127, 0, 0, 1)) }
+Hosts == IF Lvl = 1 THEN HostsQuick ELSE HostsCore \cup HostsMore
 
 Ports == {0, 80, 443, 8080}
 
@@ -123,7 +127,8 @@ Triple == { Star, IpE(V4(10, 1, 2, 3), 8080), NetE(V4(10, 0, 0, 0), 9), NetE(Doc
 
 \* quick tier: pairs over this subset only
 EntriesPair == EntriesCore \ { IpE(Doc6(0, 0, 1), 0), NetE(V4(10, 0, 0, 0), 8), NetE(Doc6(0, 0, 0), 32),
-                               DomE(<<"example", "com">>, "*.", 0) }
+                               DomE(<<"example", "com">>, "*.", 0), IpE(V4(10, 1, 2, 3), 0),
+                               DomE(<<"www", "example", "com">>, "", 0) }
 
 \* the entries that may be appended to configuration cfg
 Next1(cfg) ==
@@ -147,9 +152,10 @@ Item(cfg, h, A) == [cfg |-> cfg, h |-> h,
                        r   |-> [s \in Schemes |-> [p \in Ports |-> A[[s |-> s, h |-> h, p |-> p]]]]]
 
 \* Monotone is checked against these candidate entries and requests (it is the costly one)
-MonoSet  == {Star, NetE(V4(10, 0, 0, 0), 9), DomE(<<"example", "com">>, ".", 0)}
-            \cup (IF Lvl = 1 THEN {} ELSE {IpE(Doc6(0, 0, 1), 443), NetE(Doc6(0, 0, 0), 33), DomE(<<"com">>, "", 443)})
-MonoReqs == [s : {"http"}, h : Hosts, p : {0, 443}]
+MonoSet  == IF Lvl = 1 THEN {NetE(V4(10, 0, 0, 0), 9), DomE(<<"example", "com">>, ".", 0)}
+            ELSE {Star, NetE(V4(10, 0, 0, 0), 9), DomE(<<"example", "com">>, ".", 0),
+                  IpE(Doc6(0, 0, 1), 443), NetE(Doc6(0, 0, 0), 33), DomE(<<"com">>, "", 443)}
+MonoReqs == [s : {"http"}, h : Hosts, p : IF Lvl = 1 THEN {0} ELSE {0, 443}]
 
 \* the single invariant: tabulate Allowed once per configuration, check the sanity properties of the
 \* rule set on it and print the items
